@@ -36,6 +36,7 @@ Definition faddr_eqb (a b : faddr) : bool :=
   | FInvDelete, FInvDelete | FNsCreate, FNsCreate => true
   | FGet i n, FGet j m => Nat.eqb i j && Nat.eqb n m
   | FApply i, FApply j | FUpdate i, FUpdate j | FDelete i, FDelete j => Nat.eqb i j
+  | FStream i n, FStream j m => Nat.eqb i j && Nat.eqb n m
   | _, _ => false
   end.
 Definition is_dry (d : dry) : bool := match d with DNone => false | _ => true end.
@@ -425,52 +426,89 @@ Section Run.
     | DNone => o_ssa o
     end.
 
-  (* kubectl apply of one manifest; returns (state, Some uid on success) *)
-  Definition kubectl_apply (s : rst) (l : lobj) : rst * option N :=
+  (* apiregistration.k8s.io APIService: the one kind with a client-side fallback (apply_task.go isAPIService) *)
+  Definition is_apisvc (i : id) : bool :=
+    match u_kind (uinfo_of sc i) with KApiSvc => true | _ => false end.
+
+  (* outcome of one server-side-apply PATCH *)
+  Inductive ssares := SsaOk (u : N) | SsaFail | SsaStream.
+
+  (* kubectl's server-side branch: one apply PATCH carrying the manifest.  n = number of
+     server-side-apply PATCHes for this object sent before in this run (0, or 1 in the fallback
+     under server dry-run); the n-th one can be answered with a stream error *)
+  Definition ssa_patch (s : rst) (l : lobj) (n : nat) : rst * ssares :=
     let i := l_id l in
-    if ssa_mode then
-      let dflag := match o_dry o with DServer => true | _ => false end in
-      let s0 := maybe_cancel s i in
-      if faulted (FApply i) then (log_req s0 (RPatch i true dflag) false, None)
-      else
-        let cl := r_cl s0 in
-        match find_obj (objs cl) i with
-        | Some c =>
-            if dflag then (log_req s0 (RPatch i true true) true, Some (c_uid c))
-            else
-              let s1 := set_cl s0 (mkCl (put_obj (objs cl) (obj_of_manifest l (c_uid c) None)) (inv cl) (next_uid cl)) in
-              (log_req s1 (RPatch i true false) true, Some (c_uid c))
-        | None =>
-            if dflag then (log_req s0 (RPatch i true true) true, Some 0%N)
-            else
-              let u := next_uid cl in
-              let s1 := set_cl s0 (mkCl (put_obj (objs cl) (obj_of_manifest l u None)) (inv cl) (N.succ u)) in
-              (log_req s1 (RPatch i true false) true, Some u)
-        end
+    let dflag := match o_dry o with DServer => true | _ => false end in
+    let s0 := maybe_cancel s i in
+    if faulted (FStream i n) then (log_req s0 (RPatch i true dflag) false, SsaStream)
+    else if faulted (FApply i) then (log_req s0 (RPatch i true dflag) false, SsaFail)
     else
-      let '(s1, g) := get_obj s i in
-      match g with
-      | GFault => (s1, None)
-      | GNotFound =>
-          if dryrun then (s1, Some 0%N) else
+      let cl := r_cl s0 in
+      match find_obj (objs cl) i with
+      | Some c =>
+          if dflag then (log_req s0 (RPatch i true true) true, SsaOk (c_uid c))
+          else
+            let s1 := set_cl s0 (mkCl (put_obj (objs cl) (obj_of_manifest l (c_uid c) None)) (inv cl) (next_uid cl)) in
+            (log_req s1 (RPatch i true false) true, SsaOk (c_uid c))
+      | None =>
+          if dflag then (log_req s0 (RPatch i true true) true, SsaOk 0%N)
+          else
+            let u := next_uid cl in
+            let s1 := set_cl s0 (mkCl (put_obj (objs cl) (obj_of_manifest l u None)) (inv cl) (N.succ u)) in
+            (log_req s1 (RPatch i true false) true, SsaOk u)
+      end.
+
+  (* kubectl's client-side branch: GET, then POST if NotFound else PATCH if the three-way merge
+     changes something; under dry-run nothing is sent after the GET *)
+  Definition csa_apply (s : rst) (l : lobj) : rst * option N :=
+    let i := l_id l in
+    let '(s1, g) := get_obj s i in
+    match g with
+    | GFault => (s1, None)
+    | GNotFound =>
+        if dryrun then (s1, Some 0%N) else
+        let s2 := maybe_cancel s1 i in
+        if faulted (FApply i) then (log_req s2 (RCreate i false) false, None)
+        else
+          let cl := r_cl s2 in
+          let u := next_uid cl in
+          let s3 := set_cl s2 (mkCl (put_obj (objs cl) (obj_of_manifest l u (Some (cfg_of_manifest l)))) (inv cl) (N.succ u)) in
+          (log_req s3 (RCreate i false) true, Some u)
+    | GFound c =>
+        if negb (patch_needed c l) then (s1, Some (c_uid c))
+        else if dryrun then (s1, Some (c_uid c))
+        else
           let s2 := maybe_cancel s1 i in
-          if faulted (FApply i) then (log_req s2 (RCreate i false) false, None)
+          if faulted (FApply i) then (log_req s2 (RPatch i false false) false, None)
           else
             let cl := r_cl s2 in
-            let u := next_uid cl in
-            let s3 := set_cl s2 (mkCl (put_obj (objs cl) (obj_of_manifest l u (Some (cfg_of_manifest l)))) (inv cl) (N.succ u)) in
-            (log_req s3 (RCreate i false) true, Some u)
-      | GFound c =>
-          if negb (patch_needed c l) then (s1, Some (c_uid c))
-          else if dryrun then (s1, Some (c_uid c))
-          else
-            let s2 := maybe_cancel s1 i in
-            if faulted (FApply i) then (log_req s2 (RPatch i false false) false, None)
-            else
-              let cl := r_cl s2 in
-              let s3 := set_cl s2 (mkCl (put_obj (objs cl) (merged c l)) (inv cl) (next_uid cl)) in
-              (log_req s3 (RPatch i false false) true, Some (c_uid c))
-      end.
+            let s3 := set_cl s2 (mkCl (put_obj (objs cl) (merged c l)) (inv cl) (next_uid cl)) in
+            (log_req s3 (RPatch i false false) true, Some (c_uid c))
+    end.
+
+  Definition ssa_result (r : ssares) : option N :=
+    match r with SsaOk u => Some u | _ => None end.
+
+  (* ApplyTask.clientSideApply: a second ApplyOptions.Run with ServerSideApply off and the task's
+     dry-run strategy.  newApplyOptions still applies server-side under server dry-run, so there the
+     second attempt is another (dry-run) apply PATCH, the object's second one in this run. *)
+  Definition apisvc_fallback (s : rst) (l : lobj) : rst * option N :=
+    match o_dry o with
+    | DServer => let '(s1, r) := ssa_patch s l 1 in (s1, ssa_result r)
+    | _ => csa_apply s l
+    end.
+
+  (* kubectl apply of one manifest as ApplyTask runs it; returns (state, Some uid on success).
+     The outcome of the fallback, when it is taken, is the outcome of the apply. *)
+  Definition kubectl_apply (s : rst) (l : lobj) : rst * option N :=
+    if ssa_mode then
+      let '(s1, r) := ssa_patch s l 0 in
+      match r with
+      | SsaStream =>
+          if o_ssa o && is_apisvc (l_id l) then apisvc_fallback s1 l else (s1, None)
+      | _ => (s1, ssa_result r)
+      end
+    else csa_apply s l.
 
   (* InventoryPolicyApplyFilter *)
   Definition policy_apply_filter (s : rst) (i : id) : rst * fres :=
